@@ -195,3 +195,26 @@ Proof.
     rewrite (qsum_zero_all th Tn Z0 k) in E1. rewrite Z2Nat.id by apply Knth.
     assert (inject_Z (nth k ks 0%Z) == 256 * nth k p 0) by lra. rewrite H. field.
 Qed.
+
+(* ---------- the shape of create_table's result, for the word-level law ---------- *)
+Definition table_resid (p : list Q) : list Q :=
+  map (fun t => Qred (t / Qred (qsum (table_thetas p)))) (table_thetas p).
+
+Lemma create_table_cases (p : list Q) : (1 <= length p)%nat -> nonneg p -> qsum p == 1 ->
+  (create_table p = TableAlias (table_J p) (fst (create_alias (table_resid p))) (snd (create_alias (table_resid p)))
+   /\ nonneg (table_resid p) /\ qsum (table_resid p) == 1 /\ length (table_resid p) = length p)
+  \/ create_table p = TableOnly (table_J p).
+Proof.
+  intros HK Hnn Hs. pose proof (thetas_nonneg p Hnn) as Tn. pose proof (qsum_nonneg _ Tn) as S0.
+  destruct (table_law p HK Hnn Hs) as (NE & _). unfold create_table in *. fold (table_resid p) in *.
+  destruct (Qltb 0 (Qred (qsum (table_thetas p)))) eqn:C.
+  - left. apply Qltb_lt in C. rewrite Qred_correct in C. split; [reflexivity|].
+    set (s := Qred (qsum (table_thetas p))). assert (Es : s == qsum (table_thetas p)) by apply Qred_correct.
+    split; [|split].
+    + unfold nonneg, table_resid. apply Forall_forall. intros t Ht. apply in_map_iff in Ht. destruct Ht as (t0 & <- & Ht0).
+      rewrite Qred_correct. fold s. apply Qle_shift_div_l; [lra|]. rewrite Qmult_0_l.
+      apply (proj1 (Forall_forall _ _) Tn). assumption.
+    + unfold table_resid. fold s. rewrite qsum_map_div by lra. rewrite Es. field. lra.
+    + unfold table_resid, table_thetas. rewrite !map_length. reflexivity.
+  - right. destruct (length (table_slots 0 (table_ks p)) =? 256)%nat; [reflexivity | congruence].
+Qed.
